@@ -231,3 +231,52 @@ func Verif_C18_local_lifecycle() {
 	verifapi.Assert("closed-service-no-longer-advertised", nAds == 0)
 	verifapi.Assert("no-lock-left-held", verifapi.HeldLocks() == 0)
 }
+
+// Verif_C18_close_during_advertisement_pass: an advertised listener is closed while a periodic
+// advertisement pass is under way (two goroutines, every schedule within the pre-emption bound). Whatever
+// the owner ends up sending - an advertisement, a withdrawal, or both - an observer that receives those
+// messages in the order sent, or in the opposite order, does not list the closed service afterwards.
+func Verif_C18_close_during_advertisement_pass() {
+	n := verifNetceptor("A")
+	s := n.s
+	cb := n.verifConn("B", 1)
+	pc, err := s.ListenPacketAndAdvertise("svc", map[string]string{"k": "v"})
+	verifapi.Assert("listening", err == nil)
+	verifapi.Quiesce()
+	verifTake(cb)
+	verifapi.ExploreSchedules(2 + verifapi.Tier())
+	done := make(chan bool, 2)
+	go func() { s.sendServiceAds(); done <- true }()
+	go func() { _ = pc.Close(); done <- true }()
+	<-done
+	<-done
+	verifapi.ExploreSchedules(0)
+	verifapi.Quiesce()
+	sent := verifTake(cb)
+	verifapi.Cover("both-done")
+	// origin clocks tick between two events of one owner (equal timestamps are outside the claim)
+	var times []time.Time
+	for _, w := range sent {
+		sa := &serviceAdvertisementFull{}
+		verifapi.Assert("sent-message-decodes", verifapi.FromJSON(w[1:], sa))
+		times = append(times, sa.Time)
+	}
+	for i := 0; i+1 < len(times); i++ {
+		verifapi.Assume(!times[i].Equal(times[i+1]))
+	}
+	for _, reversed := range []bool{false, true} {
+		obs := verifNetceptor("O")
+		obs.verifConn("X", 1)
+		for i := range sent {
+			w := sent[i]
+			if reversed {
+				w = sent[len(sent)-1-i]
+			}
+			_ = obs.s.handleServiceAdvertisement(w, "X")
+		}
+		_, listed := obs.s.GetServiceInfo("A", "svc")
+		verifapi.Assert("closed-service-not-listed-by-observers", !listed)
+	}
+	_, own := s.GetServiceInfo("A", "svc")
+	verifapi.Assert("closed-service-not-listed-by-owner", !own)
+}
